@@ -284,6 +284,34 @@ pub fn dense_displacements(tier: Tier) -> Vec<LzInput> {
     v
 }
 
+/// NEAR-repeats: a block, then the same block with exactly ONE byte changed, for every position
+/// of the change and block lengths around the formats' match limits — a match measured by
+/// anything coarser than byte-by-byte comparison (words, a fingerprint of head and tail) accepts
+/// the changed block as a full match and emits a reference to the wrong bytes.
+pub fn near_repeats() -> Vec<LzInput> {
+    let filler = norepeat(700, 21);
+    let mut v = Vec::new();
+    for len in (3usize..=20).chain([32, 33, 64, 272, 273, 300]) {
+        let positions: Vec<usize> = if len <= 33 { (0..len).collect() } else { vec![0, 1, 7, 8, 9, 15, 16, 17, 31, 32, len / 2, len - 2, len - 1] };
+        for pos in positions {
+            for gap in [0usize, 5] {
+                let block = &filler[100..100 + len];
+                let mut changed = block.to_vec();
+                changed[pos] ^= 0x5A;
+                let mut data = filler[..9].to_vec();
+                data.extend_from_slice(block);
+                data.extend_from_slice(&filler[500..500 + gap]);
+                data.extend_from_slice(&changed);
+                data.extend_from_slice(&filler[600..604]);
+                // and once more the original, so that a true full match exists as well
+                data.extend_from_slice(block);
+                v.push(LzInput { family: "near-repeat", desc: format!("block of {} bytes, then the block with byte {} changed (gap {}), then the block", len, pos, gap), data });
+            }
+        }
+    }
+    v
+}
+
 /// CLOSURE under the codecs: inputs that are themselves well-formed compressed files (LZ10, bare
 /// LZ11, LZ11 behind the 0x13 wrapper, the type-0 stored form) of small and medium data, written
 /// by the reference encoder — a compressor that "recognises" compressed input, or a decompressor
